@@ -15,6 +15,7 @@ let () =
           match next () with
           | "-" -> None
           | "A" -> Some (z_of_int 8, List.init 17 (fun _ -> nz ()))
+          | "X" -> Some (z_of_int 4, List.init 10 (fun _ -> nz ()))
           | _ -> failwith "ctx" in
         let parse_regions () =
           let kind = nz () in
